@@ -291,6 +291,34 @@ func checkC17(p *Program, r *Report) {
 			}
 		}
 	}
+	// R3b in the helpers of the package (functions that are not kind-switch walkers): results of walks are propagated there too
+	isSw := map[*ssa.Function]bool{}
+	for _, w := range sw {
+		isSw[w.fn] = true
+	}
+	for _, fn := range SrcFuncs(sp) {
+		if isSw[fn] || fn.Parent() != nil {
+			continue
+		}
+		for _, b := range fn.Blocks {
+			for _, in := range b.Instrs {
+				c, ok := in.(*ssa.Call)
+				if !ok || staticCallee(c) == nil || staticCallee(c).Pkg != fn.Pkg {
+					continue
+				}
+				callee := staticCallee(c)
+				res := callee.Signature.Results()
+				if res.Len() != 1 || !isErrorType(res.At(0).Type()) {
+					continue
+				}
+				if walkers[callee] == nil && len(helperSummary(m, callee, walkers, fieldTarget, 0).param) == 0 && len(helperSummary(m, callee, walkers, fieldTarget, 0).fields) == 0 {
+					continue
+				}
+				ok2, why := resultPropagated(c)
+				r.Check(ok2, "C17.R3", fmt.Sprintf("%s|result-of|%s|%s", funcName(fn), funcName(callee), argDesc(c)), p.Pos(c.Pos()), "error result returned or tested with the non-nil edge returning it", why)
+			}
+		}
+	}
 	// R1: required kinds have clauses
 	for _, w := range sw {
 		var ks []string
@@ -642,10 +670,143 @@ type clauseResult struct {
 
 // analyseClause runs the forward must-analysis of visited child fields over one clause.
 func analyseClause(m *NodeModel, w *walker, kind string, ta *ssa.TypeAssert, walkers map[*ssa.Function]*walker, target func(*ssa.Function) *walker) *clauseResult {
+	return analyseFrom(m, w, kind, clauseEntry(ta), clauseValue(ta), walkers, target, 0)
+}
+
+// helperWalks: what a function of the walker package that is not itself a walk function does with its parameters, so that a
+// clause which hands children (or the node) to a helper is judged like one that walks them itself.
+//   param[j]  parameter j (a child: statement, expression, operator or a list of them) is walked on every non-error path
+//   fields[j] for a parameter that is a node: its child fields walked on every non-error path
+type helperWalks struct {
+	param  map[int]*walker
+	fields map[int]map[string]*walker
+}
+
+var helperWalkCache = map[*ssa.Function]*helperWalks{}
+
+func helperSummary(m *NodeModel, g *ssa.Function, walkers map[*ssa.Function]*walker, target func(*ssa.Function) *walker, depth int) *helperWalks {
+	if hw, ok := helperWalkCache[g]; ok {
+		return hw
+	}
+	hw := &helperWalks{param: map[int]*walker{}, fields: map[int]map[string]*walker{}}
+	helperWalkCache[g] = hw // recursion sees the empty summary
+	if depth > 3 || len(g.Blocks) == 0 {
+		return hw
+	}
+	for j, prm := range g.Params {
+		if cat, _ := m.catOf(prm.Type()); cat != "" {
+			// must-walk of the parameter as a whole
+			var tw *walker
+			events := map[ssa.Instruction]bool{}
+			errEdge := map[*ssa.BasicBlock]*ssa.BasicBlock{}
+			for _, b := range g.Blocks {
+				for _, in := range b.Instrs {
+					c, ok := in.(*ssa.Call)
+					if !ok || staticCallee(c) == nil || len(c.Call.Args) == 0 {
+						continue
+					}
+					callee := staticCallee(c)
+					hit := false
+					if walkers[callee] != nil && !multiChildHelper(m, callee) && c.Call.Args[0] == ssa.Value(prm) {
+						hit = true
+						tw = target(callee)
+					} else if callee.Pkg == g.Pkg && (walkers[callee] == nil || multiChildHelper(m, callee)) {
+						sub := helperSummary(m, callee, walkers, target, depth+1)
+						for i, a := range c.Call.Args {
+							if a == ssa.Value(prm) && sub.param[i] != nil {
+								hit = true
+								tw = sub.param[i]
+							}
+						}
+					}
+					if hit {
+						events[c] = true
+					}
+					if walkers[callee] != nil || callee.Pkg == g.Pkg {
+						for _, ref := range *c.Referrers() {
+							if bo, ok := ref.(*ssa.BinOp); ok && isNilConst(bo.Y) {
+								for _, r2 := range *bo.Referrers() {
+									if iff, ok := r2.(*ssa.If); ok {
+										if bo.Op == token.NEQ {
+											errEdge[iff.Block()] = iff.Block().Succs[0]
+										} else if bo.Op == token.EQL {
+											errEdge[iff.Block()] = iff.Block().Succs[1]
+										}
+									}
+								}
+							}
+						}
+					}
+				}
+			}
+			if len(events) > 0 && mustPassBeforeReturn(g, events, errEdge) {
+				hw.param[j] = tw
+			}
+			continue
+		}
+		if kind := m.nodeKind(prm.Type()); kind != "" {
+			res := analyseFrom(m, &walker{fn: g}, kind, g.Blocks[0], prm, walkers, target, depth+1)
+			fs := map[string]*walker{}
+			for _, cf := range m.Children[kind] {
+				if res.missingAt[cf.Name] == "" && res.via[cf.Name] != "" {
+					fs[cf.Name] = res.target[cf.Name]
+				}
+			}
+			hw.fields[j] = fs
+		}
+	}
+	return hw
+}
+
+// multiChildHelper: a function that takes several children at once (walkLoop(init, cond, post, body, f)) is a helper, not a
+// walk function of its first parameter.
+func multiChildHelper(m *NodeModel, fn *ssa.Function) bool {
+	n := 0
+	for _, prm := range fn.Params {
+		if cat, _ := m.catOf(prm.Type()); cat != "" {
+			n++
+		}
+	}
+	return n >= 2
+}
+
+// mustPassBeforeReturn: every path from the entry to a return that is not taken on the error edge of a walk passes an event.
+func mustPassBeforeReturn(g *ssa.Function, events map[ssa.Instruction]bool, errEdge map[*ssa.BasicBlock]*ssa.BasicBlock) bool {
+	type st struct {
+		b    *ssa.BasicBlock
+		seen bool
+	}
+	visited := map[st]bool{}
+	work := []st{{g.Blocks[0], false}}
+	for len(work) > 0 {
+		c := work[len(work)-1]
+		work = work[:len(work)-1]
+		if visited[c] {
+			continue
+		}
+		visited[c] = true
+		seen := c.seen
+		for _, in := range c.b.Instrs {
+			if events[in] {
+				seen = true
+			}
+			if _, isRet := in.(*ssa.Return); isRet && !seen {
+				return false
+			}
+		}
+		for _, s := range c.b.Succs {
+			if errEdge[c.b] == s {
+				continue
+			}
+			work = append(work, st{s, seen})
+		}
+	}
+	return true
+}
+
+func analyseFrom(m *NodeModel, w *walker, kind string, entry *ssa.BasicBlock, nv ssa.Value, walkers map[*ssa.Function]*walker, target func(*ssa.Function) *walker, depth int) *clauseResult {
 	res := &clauseResult{missingAt: map[string]string{}, via: map[string]string{}, target: map[string]*walker{},
 		inline: map[string]string{}, inlineOK: map[string]bool{}, inlineWhy: map[string]string{}}
-	entry := clauseEntry(ta)
-	nv := clauseValue(ta)
 	children := m.Children[kind]
 	st := m.Nodes[kind].Underlying().(*types.Struct)
 	fieldIdx := map[int]string{}
@@ -676,10 +837,76 @@ func analyseClause(m *NodeModel, w *walker, kind string, ta *ssa.TypeAssert, wal
 				continue
 			}
 			callee := staticCallee(c)
+			if callee != nil && (walkers[callee] == nil || multiChildHelper(m, callee)) && callee.Pkg == w.fn.Pkg && nv != nil && len(callee.Blocks) > 0 && callee != w.fn {
+				// children (or the node itself) handed to a helper of the package
+				hw := helperSummary(m, callee, walkers, target, depth)
+				var names []string
+				for i, a := range c.Call.Args {
+					if x, f, ok := fieldLoad(a); ok && x == nv {
+						if name, ok := fieldIdx[f]; ok && hw.param[i] != nil {
+							names = append(names, name)
+							res.via[name] = "handed to " + funcName(callee)
+							res.target[name] = hw.param[i]
+						}
+					}
+					if a == nv {
+						for name, tw := range hw.fields[i] {
+							names = append(names, name)
+							res.via[name] = "node handed to " + funcName(callee)
+							res.target[name] = tw
+						}
+					}
+				}
+				if len(names) > 0 {
+					sort.Strings(names)
+					whole[c] = strings.Join(names, ",")
+					for _, ref := range *c.Referrers() {
+						if bo, ok := ref.(*ssa.BinOp); ok && (isNilConst(bo.Y) || isNilConst(bo.X)) {
+							for _, r2 := range *bo.Referrers() {
+								if iff, ok := r2.(*ssa.If); ok {
+									if bo.Op.String() == "!=" {
+										errEdge[iff.Block()] = iff.Block().Succs[0]
+									} else if bo.Op.String() == "==" {
+										errEdge[iff.Block()] = iff.Block().Succs[1]
+									}
+								}
+							}
+						}
+					}
+				}
+				continue
+			}
 			if callee == nil || walkers[callee] == nil || len(c.Call.Args) == 0 {
 				continue
 			}
 			a := c.Call.Args[0]
+			if sl, ok := a.(*ssa.Slice); ok && nv != nil && walkers[callee].slice {
+				// a list literal of children handed to a list walker: []ast.Stmt{stmt.Try, stmt.Catch, stmt.Finally}
+				if al, ok := sl.X.(*ssa.Alloc); ok {
+					var names []string
+					for _, ref := range *al.Referrers() {
+						ia, ok := ref.(*ssa.IndexAddr)
+						if !ok {
+							continue
+						}
+						for _, r2 := range *ia.Referrers() {
+							if st, ok := r2.(*ssa.Store); ok && st.Addr == ssa.Value(ia) {
+								if x, f, ok := fieldLoad(st.Val); ok && x == nv {
+									if name, ok := fieldIdx[f]; ok && instrDominates(st, c) {
+										names = append(names, name)
+										res.via[name] = "element of a list literal given to " + funcName(callee)
+										res.target[name] = target(callee)
+									}
+								}
+							}
+						}
+					}
+					if len(names) > 0 {
+						sort.Strings(names)
+						whole[c] = strings.Join(names, ",")
+					}
+				}
+			}
 			if x, f, ok := fieldLoad(a); ok && nv != nil && x == nv {
 				if name, ok := fieldIdx[f]; ok {
 					whole[c] = name
